@@ -33,6 +33,7 @@ type Spec struct {
 	Vals     [][]byte
 	MaxDepth int
 	MaxMaint int
+	MaxReads int
 	Alphabet func(w *World, s *Spec) []Op
 	Oracles  []Oracle
 	Deadline time.Time
@@ -42,6 +43,8 @@ type Spec struct {
 	// OnState, if set, is called for every new state (after the oracles) inside the worker.
 	OnState func(w *World, hist []Op) *Violation
 	Workers int
+	Weight  int  // share of the time budget (default 1)
+	Strict  bool // SaveVersion on an existing version: also require the storage to be byte-identical afterwards
 }
 
 type RunStats struct {
@@ -95,12 +98,13 @@ func firstWords(s string, n int) string {
 func (k OpKind) name() string { return opNames[k] }
 
 type succ struct {
-	op    Op
-	key   [32]byte
-	mkey  [32]byte
-	v     *Violation
-	stop  bool // do not expand
-	evals int
+	op      Op
+	key     [32]byte
+	mkey    [32]byte
+	v       *Violation
+	stop    bool // do not expand
+	haveKey bool
+	evals   int
 }
 
 func histString(h []Op) string {
@@ -118,6 +122,7 @@ func histString(h []Op) string {
 // allowViol is set (used when re-running a recorded violation).
 func replay(s *Spec, hist []Op) (*World, *Violation) {
 	w := NewWorld(s.Cfg)
+	w.Strict = s.Strict
 	for i, o := range hist {
 		if v := w.Apply(o); v != nil {
 			return w, &Violation{Oracle: v.Oracle, Detail: fmt.Sprintf("at step %d (%s): %s", i, o, v.Detail)}
@@ -193,7 +198,7 @@ func stateKey(w *World, s *Spec) ([32]byte, [32]byte) {
 	mk := modelKey(w.M)
 	h := sha256.New()
 	h.Write(mk[:])
-	fmt.Fprintf(h, "cfg%s maint%d\n", w.Cfg, w.NMaint)
+	fmt.Fprintf(h, "cfg%s maint%d reads%d\n", w.Cfg, w.NMaint, w.NReads)
 	hashKVs(h, dumpStore(w))
 	if !w.Dead {
 		stateDump(h, w.Tree)
@@ -277,29 +282,40 @@ func Explore(s *Spec, kf *KnownFindings) (*RunStats, *Found) {
 			for _, r := range rs {
 				st.Transitions++
 				st.OracleEvals += r.evals
-				hist := append(append([]Op{}, frontier[i]...), r.op)
+				if r.v == nil && dedup {
+					if _, ok := seen[r.key]; ok {
+						outcomes[r.mkey] = struct{}{}
+						continue
+					}
+				}
+				hist := append(append(make([]Op, 0, len(frontier[i])+1), frontier[i]...), r.op)
 				if r.v != nil {
 					if id := kf.Match(s.ID, r.v, hist, s.Cfg); id != "" {
 						st.Known[id]++
 						kf.Note(id, s, hist, r.v)
-						continue
+						if !(kf.ExpandOK(id) && r.haveKey) {
+							continue
+						}
+						r.v = nil // fall through: de-duplicate and expand the (healthy) state
 					}
-					st.Violations++
-					if devAll {
-						sig := r.v.Oracle + "|" + r.op.Kind.name() + "|" + firstWords(r.v.Detail, 3)
-						devMu.Lock()
-						devSeen[sig]++
-						first := devSeen[sig] == 1
-						devMu.Unlock()
-						if first {
-							fmt.Printf("DEV violation cfg=%s\n   hist: %s\n   %s\n", s.Cfg, histString(hist), oneLine(r.v.Error()))
+					if r.v != nil {
+						st.Violations++
+						if devAll {
+							sig := r.v.Oracle + "|" + r.op.Kind.name() + "|" + firstWords(r.v.Detail, 3)
+							devMu.Lock()
+							devSeen[sig]++
+							first := devSeen[sig] == 1
+							devMu.Unlock()
+							if first {
+								fmt.Printf("DEV violation cfg=%s\n   hist: %s\n   %s\n", s.Cfg, histString(hist), oneLine(r.v.Error()))
+							}
+							continue
+						}
+						if found == nil {
+							found = &Found{Spec: s, Hist: hist, V: r.v}
 						}
 						continue
 					}
-					if found == nil {
-						found = &Found{Spec: s, Hist: hist, V: r.v}
-					}
-					continue
 				}
 				outcomes[r.mkey] = struct{}{}
 				if dedup {
@@ -360,6 +376,7 @@ func expand(s *Spec, hist []Op, seen map[[32]byte]struct{}) []succ {
 			// The key is taken before the oracles run: successors are produced by replaying operations only,
 			// so the state that is expanded is the one without any observer effect of the oracles' reads.
 			r.key, r.mkey = stateKey(w2, s)
+			r.haveKey = true
 			if s.Expand != nil && !s.Expand(w2) {
 				r.stop = true
 			}
@@ -383,6 +400,9 @@ func expand(s *Spec, hist []Op, seen map[[32]byte]struct{}) []succ {
 		}
 		if r.v == nil && s.OnState != nil {
 			r.v = safely("onstate", func() *Violation { return s.OnState(w2, append(append([]Op{}, hist...), op)) })
+		}
+		if r.v != nil {
+			collectFacts(w2, r.v)
 		}
 		w2.Close()
 		out = append(out, r)
